@@ -115,7 +115,7 @@ pub fn check(c: &Case) -> Result<Vec<&'static str>, Failure> {
     }
     let text = c.text.clone();
     let case = c.clone();
-    let got = std::panic::catch_unwind(move || {
+    let got = verif_core::util::catch(move || {
         let set = ParseSettings::default();
         let st = ParseState::new(&text, &set).advance_safe(case.offset);
         let before = st.s().len();
